@@ -76,7 +76,8 @@ def _values():
               sp.PositionType(L(1, U.c), L(1, U.c), sp.PositionType.HEdge.right, sp.PositionType.VEdge.top),
               sp.PositionType(L(5, U.rw), L(5, U.rh)),
               sp.PositionType(L(0, U.pct), L(0, U.px), sp.PositionType.HEdge.right, sp.PositionType.VEdge.bottom),
-              sp.PositionType(L(100, U.pct), L(50, U.pct), sp.PositionType.HEdge.left, sp.PositionType.VEdge.top)],
+              sp.PositionType(L(100, U.pct), L(50, U.pct), sp.PositionType.HEdge.left, sp.PositionType.VEdge.top),
+              sp.PositionType(L(0, U.pct), L(0, U.pct))],       # the initial value, written out: a specified position all the same
     Padding=[sp.PaddingType(L(1, U.pct), L(2, U.pct), L(3, U.pct), L(4, U.pct)), sp.PaddingType(L(10, U.px), L(10, U.px), L(10, U.px), L(10, U.px)),
              sp.PaddingType(L(0.5, U.c), L(0.5, U.c), L(0.5, U.c), L(0.5, U.c)), sp.PaddingType(L(1, U.em), L(1, U.em), L(1, U.em), L(1, U.em)),
              sp.PaddingType(L(1, U.rh), L(1, U.rw), L(1, U.rh), L(1, U.rw))],
@@ -168,7 +169,7 @@ def families(tier):
       GEO_DEFAULT, ["Direction", "WritingMode"])
   # 8. extent / origin / position on the region x resolutions
   ext = [0, 1, 2, 3, 4, 5]
-  fam("extent_origin_position", "chain", [("Extent", {1: ext}), ("Origin", {1: qd([0, 1, 2], [0, 1, 2, 3, 4])}), ("Position", {1: list(range(0, 8))})],
+  fam("extent_origin_position", "chain", [("Extent", {1: ext}), ("Origin", {1: qd([0, 1, 2], [0, 1, 2, 3, 4])}), ("Position", {1: list(range(0, 9))})],
       [[], [st(1, 3, 2)]] + qd([], [[st(1, 1, 3)], [st(1, 2, 1)]]), [[], [dict(ax=1, vi=1)]] + qd([], [[dict(ax=2, vi=3)]]), qd(GEO_TWO, GEO_ALL),
       ["Extent", "Origin", "Position"])
   # 9. padding x writing modes x extent
